@@ -23,6 +23,7 @@ ASSUME = [
     "the window is read on the sealed whole-second timestamp against State.WorldState.Now: |stamp - now| < 180 s, concretised as 0, +-1 s, +-60 s, +-179 s, +-(180 s - 1 ns) inside; +-180 s (edge); +-(180 s + 1 ns), +-181 s, +-360 s, +-24 h outside",
     "time: the spec's offsets are exact integers in ticks of tolerance/2 (edge classes -3..3, then 1 day, 1 / 100 / 292 / 293 / 300 / 584 years and Big = beyond, both signs); the harness decides inside/outside in exact big.Int nanosecond arithmetic, maps the distance to the class and requires the table to agree; stamps 0, 1, -1, MaxInt64, MinInt64, +-2^62, 2^40, MaxInt32, MaxUint32, now +- 2^63 ns +- 1 s and random 64-bit values are sealed by the real client (its clock set to exactly that second)",
     "server configuration: probes of the configured set run against servers built by ParseConfig/InitState from a JSON file, with / without AdminUID x 0 / 1 / 3 BypassUID entries (16-byte entries); probe UIDs: 16 x 0x00, 16 x 0xff, a bypass UID, the admin UID, three one-byte variants of a bypass UID, an unlisted random UID; authorised without a database = the configured set exactly",
+    "session state at arrival: fresh / a live session of the same (UID, session id) (opened by a real client with a served method; the packet then JOINS) / a live session of the same UID with another id; every class the statement excludes (unserved method, wrong key, stamp on or outside the edge, every tamper class, forgery) must be refused in all three. A revoked user's join of its own live session is served from the cached record and is tolerated until the usage-upload round that follows the revocation (spec: Soundness has 'Authorised or (cache = same and no tick yet)'); after one round (panel.updateUsageQueue + commitUpdate with the user idle) both the same and a new session id must be refused",
     "user states are seeded in a real bolt database (ok, UpCredit 0, DownCredit 0, expired 1000 s ago, expired in 1970, absent) or the bypass / admin configuration; a user that is already active is not re-authenticated (C16's subject): every presentation starts from a panel without that user's session unless a previous dispatch goroutine never returned (purged)",
     "an admin session (admin UID, session id 0) carries no proxy traffic: the 'method it serves' clause is applied to proxy sessions only (dispatcher.go tests the admin gate before the ProxyBook); the occurrences are counted in harness_stats obs:admin_api_with_unserved_method and become a violation with VERIF_C07_STRICT_ADMIN_METHOD=1",
     "changes outside the sealed block and outside the 255 significant bits of the random (SNI, other extensions, length/type fields, other HTTP headers, invalid base64) may be accepted or redirected; if accepted the identity must be the sealed one; replays of such copies are C08's subject, byte-exact relaying C09's",
@@ -30,7 +31,8 @@ ASSUME = [
 ]
 
 SOUND_DEVS = ["WindowInclusive", "NoTimestampCheck", "IgnoreDecryptError", "SkipMethodCheck", "SkipUidCheck", "AdminNoSid",
-              "LowOrderAccepted", "SkipRecheckSessionless", "SkewSubSaturates", "ZeroUidBypassNoAdmin"]
+              "LowOrderAccepted", "SkipRecheckSessionless", "SkewSubSaturates", "ZeroUidBypassNoAdmin",
+              "MethodCheckOnOpenOnly", "IdleSkippedInUpload"]
 JVM = {"JAVA_TOOL_OPTIONS": "-Xss64m -XX:ParallelGCThreads=2 -XX:TieredStopAtLevel=1"}
 INV = "Agreement KeyAgreement Soundness AdminGate AdminReach"
 
@@ -106,6 +108,8 @@ def run(ctx):
     ctx.log("replay: %d real clients, %d single-bit flips, %d multi-byte edits, %d environment presentations on %d base packets; %.1fs" % (
         sum(v for k, v in gs.items() if k.startswith("clients:")), gs.get("single_bit_flips", 0), gs.get("multi_byte_edits", 0),
         gs.get("environment_presentations", 0), gs.get("base_packets", 0), gs.get("replay_wall_ms", 0) / 1000.0))
+    ctx.log("session state at arrival: %d presentations %s" % (gs.get("live_session_presentations", 0),
+                                                                {k[13:]: v for k, v in sorted(gs.items()) if k.startswith("live_outcome:")}))
     ctx.log("far-away stamps: %d presentations; server configurations: %s" % (
         gs.get("far_stamp_presentations", 0), {k[21:]: v for k, v in sorted(gs.items()) if k.startswith("configuration_probes:")}))
     ctx.log("small-order forgeries: %d; histories: %s" % (gs.get("small_order_forgeries", 0),
@@ -143,7 +147,7 @@ def run(ctx):
         "abstract_cases_in_table": len(table),
         "verdict_classes": by,
         "exhaustive": True,
-        "checker_cmd": "tlc Handshake.tla / HandshakeNeg.tla (10 deviation flags) / HandshakeGen.tla (Scope=sound) + go test -run TestVerifC07Replay",
+        "checker_cmd": "tlc Handshake.tla / HandshakeNeg.tla (12 deviation flags) / HandshakeGen.tla (Scope=sound) + go test -run TestVerifC07Replay",
         "harness_stats": gs,
     }
     return lib.finish(ctx, LEVEL, cov, ASSUME)
